@@ -75,7 +75,7 @@ def groupsEndChecks : List (Cfg × HState) → Res Unit
 /-- `Groups::evalArguments( argc, argv)` with the members registered in `order` -/
 def groupsEval (cfg : Cfg) (inits : List DVal) (argMember globMember order : List Nat) (argv : List Word) :
     Res (List (Cfg × HState)) := do
-  if order.isEmpty then .throw .runtime_error else pure ()
+  throwIf order.isEmpty .runtime_error
   let ms := order.map (fun m =>
     let c := memberCfg cfg argMember globMember m
     (c, c.initState (memberInits inits argMember m)))
